@@ -108,11 +108,20 @@ def gen_items(rng):
     return items
 
 
-def gen_case(rng, tier):
+STRATA = [(site_, cls_) for cls_ in sorted(BY_CLASS) for site_ in SITES_RULES[:5]]
+
+
+def gen_case(rng, tier, i=None):
     items = gen_items(rng)
     words = sorted({it['description'].split()[0].split('.')[0] for it in items})
     family = rng.choice(['rules', 'rules', 'rules', 'legacy', 'views'])
     injected = rng.random() < 0.45
+    forced = None
+    if i is not None and i % 3 == 0:
+        # every third run is drawn from the grid (site x what the failing evaluation raises underneath), in order: whatever the
+        # seed, a batch of 180 runs has met every cell
+        family, injected = 'rules', False
+        forced = STRATA[(i // 3) % len(STRATA)]
     case = {'family': family, 'injected': injected, 'items': items, 'mode': rng.choice(['first_match', 'first_match', 'most_specific']),
             'failing': [], 'eval_faults': [],
             # the day the command runs (relative-date rules read the calendar; both leap days are days like any other)
@@ -122,6 +131,8 @@ def gen_case(rng, tier):
             'big': rng.randint(140, 300) if rng.random() < 0.1 else 0}
     if family == 'rules':
         site = rng.choice(SITES_RULES)
+        if forced:
+            site = forced[0]
         m = rf.gen_rules_model(rng, rng.randint(2, 5), fields=(), sources=('Card', 'Bank'), simple=False, supplemental=None)
         for r in m['rules']:
             # biased towards matching the items
@@ -143,6 +154,10 @@ def gen_case(rng, tier):
                 bad = bad.split(' == ')[0].split(' > ')[0] if rng.random() < 0.5 else bad
         if rng.random() < 0.35:
             bad = rng.choice(BINDING_TXN)
+        if forced:
+            bad = rng.choice(BY_CLASS[forced[1]])
+            if site not in ('match', 'variable', 'let') and rng.random() < 0.5:
+                bad = bad.split(' == ')[0].split(' > ')[0]
         if site == 'match':
             expr = r['match'] if injected else bad
             r['match'] = expr
@@ -480,7 +495,9 @@ def execute(case, scratch):
                         res, _ = run(lambda e=src: fails_alone('txn', e, it), None)
                         if isinstance(res, str):
                             failing.add(e)
-                            classes.add(res)
+                            # what the evaluation raises underneath (the evaluators convert it): from the pool the expression came from
+                            under = [k_ for k_, v_ in BY_CLASS.items() if e in v_ or any(e == x.split(' == ')[0].split(' > ')[0] for x in v_)]
+                            classes.add(res + ('<-' + under[0] if under else ''))
                 my_faults = [f for f in faults if f[1] == it['id']]
                 paths = ['engine', 'normalize'] if fam == 'rules' else ['normalize']
                 for path in paths:
@@ -706,7 +723,7 @@ def fin(log, count, sets, violations):
 
 def run_one(seed, i, tier, scratch):
     rng = util.rng_for(seed, ID, i)
-    case = gen_case(rng, tier)
+    case = gen_case(rng, tier, i)
     res = execute(case, scratch)
     for v in res['violations']:
         v['schedule']['seed'] = seed
